@@ -32,6 +32,33 @@ TIERS = {
 }
 
 
+def concurrent_family(ctx, cases, t):
+    base.reentrancy_model(ctx)
+    race = ctx.go_build("linalg", race=True)
+    res = ctx.path("concurrent.ndjson")
+    rounds = "2" if ctx.tier == "quick" else "4"
+    rc, _, err, _ = ctx.run([race, "concurrent", cases, res, "8", rounds], timeout=2400, ok_codes=(0, 66),
+                            env={"GORACE": "halt_on_error=0 exitcode=66"})
+    nrace = (err or "").count("WARNING: DATA RACE")
+    if rc == 66 or nrace:
+        rep = err or ""
+        i = rep.find("WARNING: DATA RACE")
+        ctx.violation({"engine": "linalg", "op": "concurrent", "type": "any", "opts": "concurrent", "what": "not_reentrant",
+                       "how": "race_detector"},
+                      {"mode": "concurrent", "goroutines": 8, "rounds": rounds, "reports": nrace, "first_report": rep[i:i + 2500]})
+    summ = None
+    for r in vlib.iter_ndjson(res):
+        if r["kind"] == "summary":
+            summ = r
+        elif r["kind"] == "mismatch":
+            ctx.violation(r["sig"], dict(r["detail"], mode="concurrent"))
+    if summ is None or summ.get("jobs", 0) == 0:
+        raise vlib.Infra("concurrent run wrote no summary / no jobs")
+    ctx.extra["concurrent_family"] = {"jobs": summ["jobs"], "matrices": summ["cases"], "goroutines": 8, "rounds": int(rounds),
+                                      "bitwise_mismatches": summ["mismatches"], "race_reports": nrace}
+    return summ
+
+
 def run(ctx):
     t = TIERS[ctx.tier]
     for m in ("LinSolve", "MatrixCalculus"):
@@ -97,6 +124,9 @@ def run(ctx):
             raise vlib.Infra("vacuity: no fast-vs-generic comparison of kind " + k)
     if fam.get("sym3", 0) == 0 or fam.get("sym4", 0) == 0:
         raise vlib.Infra("vacuity: no symmetric indefinite inputs: %s" % fam)
+    # 4. concurrent family (contract Reentrancy.tla): the fast-path routines from 8 goroutines on different
+    #    TLC-generated matrices, -race build; results must equal the sequential ones bit for bit
+    conc = concurrent_family(ctx, cases, t)
     ctx.log("replayed %d derivative cases (%d checks) and %d matrices fast-vs-generic (%d checks), %d mismatch records" % (
         total["cases"], total["checks"], total2["cases"], total2["checks"], len(mism) + len(mism2)))
     if total["cases"] != res.json_count or total2["cases"] != res2.json_count:
@@ -148,7 +178,14 @@ def replay(ctx, path):
     binary = ctx.go_build("linalg")
     cases = ctx.path("case.ndjson")
     with open(cases, "w") as f:
-        f.write(json.dumps(d["case"]) + "\n")
+        if "case" in d:
+            f.write(json.dumps(d["case"]) + "\n")
+    if d.get("mode") == "concurrent":
+        # a schedule cannot be replayed exactly: re-run the concurrent family on a fresh set of cases
+        res2 = ctx.tlc("LinSolve", "LinSolve.cfg", workers=8, timeout=3000, label="cases", json_out=cases,
+                       consts=base.gen_consts(ctx, TIERS["quick"]), heap="4g")
+        concurrent_family(ctx, cases, TIERS["quick"])
+        return ctx.finish(rule="re-run of the concurrent family", evaluations=1, distinct_nontrivial=1)
     total, mism = base.run_driver(ctx, binary, "c06", cases, "replay", procs=1)
     base.report(ctx, mism, "replay")
     return ctx.finish(rule="replay of one recorded violation", evaluations=1, distinct_nontrivial=1)
@@ -179,6 +216,8 @@ MANIFEST = {
             "carries, and the result matrix must hold exactly the printed table whatever it held before. On every LinSolve case the DenseFloat64 Gauss-Jordan and, on every symmetric case (SPD and indefinite "
             "families), the float32/float64 Cholesky paths in every option combination (plain, ForcePD, LDL, LDL+ForcePD; "
             "default, fresh and dirty buffers) must agree with the generic path in outcome and to 16 u kappa. QR algorithm / eigensystem / SVD / Gram-Schmidt / Hessenberg derivative propagation is not covered here.",
+    "level_note": "The concurrent family (8 goroutines, -race build, bit-wise comparison with the sequential run) is a probe of "
+                  "schedules chosen by the Go runtime, not an enumeration; its contract is model-checked in Reentrancy.tla.",
     "note": "Trusted: TLC, CommunityModules Json, Rat.tla, the Go driver's comparison code. Partial with respect to the property's "
             "quantifier: the iterative factorisations are outside this check.",
     "design_ref": "DESIGN.md section 5 (C06), section 4 (MatrixCalculus)",
